@@ -4,6 +4,6 @@ package snaps
 
 // A second test file of the package for the native twin (see h11ViaOther).
 func init() {
-	viaOtherTestFile = func(f func()) { f() }
-	otherTestFileBase = "zz_other.dot_test"
+	vxViaOtherTestFile = func(f func()) { f() }
+	vxOtherTestFileBase = "zz_other.dot_test"
 }
